@@ -340,7 +340,8 @@ def gen_csv_doc(t, rng, ctx, n):
 #   - member keys must be element names (integer keys are written k<i> by the encoder, on both sides);
 #   - text is sent as it is except bytes that are not XML characters / not UTF-8 (replaced), and numeric text is kept
 #     canonical: "12x", " 12", "+5" are std::from_chars's business (num family), not this model's;
-#   - a scalar at the ROOT is excluded: PugiXmlRootScope opens a text element as array / object scope (finding A01).
+#   - a scalar at the ROOT is included again since /repo b0f5582 repaired finding A01 (PugiXmlRootScope opened a text element
+#     as array / object scope): MismatchedTypes under ThrowError, not loaded under Skip, as the model's xml_arch says.
 XML_TYPES = [i for i in range(44) if i not in (20, 21, 22, 40, 41)]     # root optional / smart pointers / scalars: no XML root value
 
 
@@ -366,8 +367,6 @@ def xml_text(v):
 
 
 def xml_sanitize(d, root=True):
-    if root and d is not None and not isinstance(d, list):
-        return None                  # scalar root: finding A01, outside the correspondence
     if isinstance(d, M):
         seen, out = set(), M()
         for k, v in d:
@@ -714,8 +713,49 @@ def gen_validate(rng, tier):
 
 # ------------------------------------------------------------------ C17: the property read off the implementation
 
+def xml_has_text(d):
+    """the element that encodes d has a text child (so it is a scalar, not a scope)"""
+    return isinstance(d, bool) or (isinstance(d, int)) or (isinstance(d, str) and d != "")
+
+
+def xml_item_name(d):
+    return "object" if isinstance(d, M) else "array" if isinstance(d, list) else "value"
+
+
+def xml_members(d):
+    """members an object scope sees on the element that encodes d (d has no text)"""
+    if isinstance(d, M):
+        return M(("k%d" % k if isinstance(k, int) and not isinstance(k, bool) else k, v) for k, v in d)
+    if isinstance(d, list):
+        return M((xml_item_name(e), e) for e in d)
+    return M()
+
+
+def xml_items(d):
+    if isinstance(d, M):
+        return [v for _, v in d]
+    if isinstance(d, list):
+        return list(d)
+    return []
+
+
 def py_load_scalar(ft, d, arch):
     """(loaded?, value) under the Skip policies; None = outside what this reference decides"""
+    if arch == "xml":
+        if not xml_has_text(d):
+            return (False, None)
+        if ft == "int":
+            if isinstance(d, bool):
+                return (False, None)
+            if isinstance(d, int):
+                return (True, d) if INT_MIN <= d <= INT_MAX else (False, None)
+            t = d[1:] if d.startswith("-") else d
+            if t.isdigit() and t.isascii():
+                return (True, int(d)) if INT_MIN <= int(d) <= INT_MAX else (False, None)
+            return (False, None)
+        if ft == "str":
+            return (True, ("true" if d else "false") if isinstance(d, bool) else str(d))
+        return None
     if ft == "int":
         if isinstance(d, bool):
             return (True, int(d))
@@ -769,10 +809,32 @@ def expected_report(fields, members, path, arch, first_index, acc):
             loaded, value = py_load_scalar(ft, d, arch) if present else (False, None)
             acc.append((fp, expected_messages(vs, loaded, value, len(value) if isinstance(value, str) else 0)))
         elif ft == "vecint":
+            if arch == "xml":
+                loaded = present and not xml_has_text(d)
+                acc.append((fp, expected_messages(vs, loaded, None, len(xml_items(d)) if loaded else 0)))
+                continue
             loaded = present and isinstance(d, list)
             acc.append((fp, expected_messages(vs, loaded, None, len(d) if loaded else 0)))
         else:
             kind, sub = ft
+            if arch == "xml":
+                # every element without text opens as a scope; array items are named, not numbered
+                loaded = present and not xml_has_text(d)
+                n = 0
+                if loaded and kind == "obj":
+                    expected_report(sub, xml_members(d), fp, arch, first_index, acc)
+                elif loaded and kind == "vec":
+                    for e in xml_items(d):
+                        n += 1
+                        if not xml_has_text(e):
+                            expected_report(sub, xml_members(e), fp + "/" + xml_item_name(e), arch, first_index, acc)
+                elif loaded:
+                    for k2, e in xml_members(d):
+                        n += 1
+                        if not xml_has_text(e):
+                            expected_report(sub, xml_members(e), fp + "/" + str(k2), arch, first_index, acc)
+                acc.append((fp, expected_messages(vs, loaded, None, n)))
+                continue
             if kind == "obj":
                 loaded = present and isinstance(d, M)
                 if loaded:
@@ -824,7 +886,18 @@ def judge_c17(line, impl_out):
     kind, fields = CLASSES[ci]
     first_index = 0 if arch == "csv" else 1
     acc = []
-    if kind == "obj":
+    if arch == "xml":
+        if xml_has_text(doc):
+            # a text root is not a scope: not loaded (Skip) - nothing is validated - or MismatchedTypes (ThrowError)
+            return ("HOLD", "text root is not loaded, nothing validated") if impl_out.startswith("OK ") else ("FAIL", "a text root element was opened as a scope (A01)")
+        rp = "/" + xml_item_name(doc)
+        if kind == "obj":
+            expected_report(fields, xml_members(doc), rp, arch, first_index, acc)
+        else:
+            for e in xml_items(doc):
+                if not xml_has_text(e):
+                    expected_report(fields, xml_members(e), rp + "/" + xml_item_name(e), arch, first_index, acc)
+    elif kind == "obj":
         if not isinstance(doc, M):
             return "UNKNOWN", "root document is not an object"
         expected_report(fields, doc, "", arch, first_index, acc)
@@ -873,6 +946,29 @@ def judge_c17(line, impl_out):
 
 
 # ------------------------------------------------------------------ shared assessment
+
+STREAM_VARIANT = {"mp": "mps", "json": "jsons", "xml": "xmls"}
+
+
+def stream_vs_memory(vlib, impl, cases, oi, om, failing, limit=20):
+    """implementation-only: the same documents through std::istream must answer exactly what the memory load answers
+    (MsgPack: paths come from keys that are views into the stream reader's buffer - finding F54, repaired by a981807;
+    JSON: RapidJSON IStreamWrapper + encoding detection; XML: pugixml load from stream).  Returns the number of stream runs."""
+    idx = [i for i, line in enumerate(cases) if line.split(" ")[1] in STREAM_VARIANT]
+    if not idx:
+        return 0
+    sc = []
+    for i in idx:
+        f = cases[i].split(" ")
+        f[1] = STREAM_VARIANT[f[1]]
+        sc.append(" ".join(f))
+    so = vlib.run_driver(impl, sc)
+    for i, line, o in zip(idx, sc, so):
+        if o != oi[i] and len(failing) < limit:
+            failing.append(dict(driver="arch", case=line, implementation=o, model=om[i], judge="FAIL",
+                                why="loading the same document from a stream answers differently than loading it from memory (%s)" % oi[i][:200]))
+    return len(idx)
+
 
 def load_corpus(prop):
     import vlib
